@@ -295,6 +295,7 @@ func g6One(c *Ctx, mr *mapRange) {
 	var accums []accum
 	var problems []string
 	nEffects := 0
+	perKeyWrites := map[string][]string{} // cell class -> canonical addresses written per key
 
 	// --- memory effects
 	var scanInstr func(in ssa.Instruction, subst map[ssa.Value]ssa.Value, depth int)
@@ -312,6 +313,9 @@ func g6One(c *Ctx, mr *mapRange) {
 		case *ssa.Store:
 			nEffects++
 			k := classify(x.Addr, 0)
+			if k == "perkey" {
+				perKeyWrites[storeCell(x.Addr)] = append(perKeyWrites[storeCell(x.Addr)], canon(x.Addr))
+			}
 			switch k {
 			case "local", "perkey":
 				return
@@ -452,6 +456,46 @@ func g6One(c *Ctx, mr *mapRange) {
 		}
 		for _, in := range b.Instrs {
 			scanInstr(in, nil, 0)
+		}
+	}
+
+	// --- cross-iteration interference: a per-key write is order-insensitive only if no iteration reads a
+	// cell of the same class through another object (it would see that object before or after its own
+	// iteration updated it, depending on map order)
+	if len(perKeyWrites) > 0 {
+		for _, b := range fn.Blocks {
+			if !mr.loop.Blocks[b] {
+				continue
+			}
+			for _, in := range b.Instrs {
+				ld, ok := in.(*ssa.UnOp)
+				if !ok || ld.Op != token.MUL {
+					continue
+				}
+				cls := storeCell(ld.X)
+				addrs, written := perKeyWrites[cls]
+				if !written {
+					// whole-struct load of a type one of whose fields is written per key
+					if st := structOf(ld.Type()); st != nil {
+						tn := typeName(ld.Type())
+						for wc := range perKeyWrites {
+							if strings.HasPrefix(wc, tn+".") && classify(ld.X, 0) == "outer" {
+								problems = append(problems, fmt.Sprintf("%s: reads a whole %s that is not this iteration's own while the loop writes %s per key: the value seen depends on map order", p.ipos(ld), tn, wc))
+							}
+						}
+					}
+					continue
+				}
+				same := false
+				for _, a := range addrs {
+					if a == canon(ld.X) {
+						same = true
+					}
+				}
+				if !same {
+					problems = append(problems, fmt.Sprintf("%s: reads %s through %s while the loop writes %s of other keys' objects: whether the other iteration ran first depends on map order", p.ipos(ld), cls, canon(ld.X), cls))
+				}
+			}
 		}
 	}
 
